@@ -312,7 +312,12 @@ class FileGen:
             return Expr("%s%s" % (u, paren(rng, a.text) if not a.atomic or u == "^C" else a.text), v, a.deps,
                         a.positional, a.nonlinear + (1 if u in ("~", "^C") else 0), atomic=False)
         if op in ("<<", ">>", "_"):
-            b = self.lit(rng.randint(0, 6))
+            small = [c for c in self.visible.values() if c.value is not None and 0 <= c.value <= 6
+                     and (allow_positional or not c.positional)]
+            if small and rng.random() < 0.4:
+                b = self.cexpr(rng.choice(small))
+            else:
+                b = self.lit(rng.randint(0, 6))
         v = _apply(op, a.value, b.value)
         if v is None or abs(v) >= 2 ** 31:
             return None
@@ -388,7 +393,8 @@ class FileGen:
             e = self.expr("byte")
             return "%s %s" % (rng.choice(["emt", "trap"]), e.text)
         if k < 0.88:
-            return "mark %s" % num(rng, rng.randint(0, 63))
+            e = self.expr("small", allow_positional=False)
+            return "mark %s" % e.text
         if k < 0.90:
             return "rts %s" % self.reg()
         if k < 0.93:
@@ -838,9 +844,22 @@ class Gen:
                 for nm in names:
                     body.append(Stmt(".dword " + nm, "probe", {"name": nm}))
                     gf.probe_order.append(nm)
+        # how this file exports: '==' / '::' marks, an '.extern a, b' directive, or '.extern all'
+        exported = [c.name for c in plan["consts"] if c.extern] + sorted(plan["extern_labels"])
+        ext_style = "marks"
+        if exported and depth == 0:
+            ext_style = rng.choice(["marks", "marks", "directive", "all"])
+        if ext_style != "marks":
+            # labels were emitted with '::' above: rewrite them to plain ':'
+            for st in body:
+                if st.kind == "label" and st.info["name"] in plan["extern_labels"]:
+                    st.text = st.text.replace(st.info["name"] + "::", st.info["name"] + ":", 1)
+            names = ", ".join(exported) if ext_style == "directive" else rng.choice(["all", "ALL", "All"])
+            body.insert(rng.randint(0, len(body)), Stmt(".extern " + names, "extern"))
+            prog.features.add("extern-" + ext_style)
         # place constant definitions anywhere (forward and backward references arise naturally)
         for c in plan["consts"]:
-            op = "==" if c.extern else "="
+            op = "==" if (c.extern and ext_style == "marks") else "="
             sp = rng.choice([" ", "", "  "])
             st = Stmt("%s%s%s%s%s" % (c.name, sp, op, sp, c.text), "const", {"name": c.name, "const": c})
             body.insert(rng.randint(0, len(body)), st)
@@ -855,6 +874,16 @@ class Gen:
             if prog.link_pos == "dot":
                 form = rng.choice([". = %s", ".=%s"])
             st = Stmt(form % num(rng, prog.base), "link")
+            if prog.link_pos != "dot" and rng.random() < 0.3:
+                # the base itself is a symbolic expression, possibly defined later
+                bname = fg.new_name("b")
+                k = rng.randint(0, 8) * 2
+                bc = Const(bname, prog.base - k, num(rng, prog.base - k) if prog.base - k >= 0 else "0 - " + num(rng, k - prog.base),
+                           set(), False, False, gf, "word", 0)
+                gf.consts[bname] = bc
+                body.insert(rng.randint(0, len(body)), Stmt("%s = %s" % (bname, bc.text), "const", {"name": bname, "const": bc}))
+                st = Stmt((form % ("%s + %s" % (bname, num(rng, k)))) if k else (form % bname), "link")
+                prog.features.add("link-symbolic")
             if prog.link_pos in ("dot", "first"):
                 body.insert(0, st)       # '. = X' sets the base only while the base is still unknown
             elif prog.link_pos == "middle":
